@@ -4,7 +4,10 @@ import json, os
 
 BASELINE = "cd /repo && /venv/bin/python -m pytest -ra -q -p no:cacheprovider --timeout=900 --continue-on-collection-errors"
 here = os.path.dirname(os.path.abspath(__file__))
-CLAIMED = json.load(open(os.path.join(here, "claims.json")))
+CLAIMED = {}
+for fn in sorted(os.listdir(os.path.join(here, "claims"))):
+    if fn.endswith(".json"):
+        CLAIMED[fn[:-5]] = json.load(open(os.path.join(here, "claims", fn)))
 ALL = [json.loads(l)["id"] for l in open(os.path.join(here, "properties.jsonl"))]
 checks = []
 for pid in ALL:
